@@ -90,9 +90,17 @@ type labelNode struct {
 	l map[string]*labelNode
 }
 
-func (n *labelNode) AddLeaf(label []byte) {
+// useShortKey reports whether label can be stored in the zero padded
+// [24]byte key map without colliding with another label. A label that ends
+// with a zero byte is indistinguishable from a shorter one after padding,
+// so it goes to the string map.
+func useShortKey(label []byte) bool {
 	l := len(label)
-	if l <= 24 {
+	return l <= 24 && (l == 0 || label[l-1] != 0)
+}
+
+func (n *labelNode) AddLeaf(label []byte) {
+	if useShortKey(label) {
 		if n.s == nil {
 			n.s = make(map[[24]byte]*labelNode)
 		}
@@ -108,8 +116,7 @@ func (n *labelNode) AddLeaf(label []byte) {
 }
 
 func (n *labelNode) GetOrAddChild(label []byte) *labelNode {
-	l := len(label)
-	if l <= 24 {
+	if useShortKey(label) {
 		var key [24]byte
 		copy(key[:], label)
 		if child := n.s[key]; child != nil {
@@ -135,8 +142,7 @@ func (n *labelNode) GetOrAddChild(label []byte) *labelNode {
 }
 
 func (n *labelNode) GetChild(label []byte) (child *labelNode, ok bool) {
-	l := len(label)
-	if l <= 24 {
+	if useShortKey(label) {
 		var key [24]byte
 		copy(key[:], label)
 		child, ok = n.s[key]
